@@ -165,6 +165,10 @@ func execG(twice bool) func(t *testing.T, raw json.RawMessage) *sim.Outcome {
 
 // ---- C04: single-fault enumeration ----------------------------------------
 
+// enumRefKind: the kind of error the fault-free reference execution of the scenario being enumerated ended with ("": it
+// succeeded, or no enumeration is in progress).
+var enumRefKind string
+
 var enumAgentFaults = append(append([]string(nil), refagent.AllFaults...), refagent.FaultFailSame, refagent.FaultCloseLost)
 
 func execEnum(t *testing.T, p *GPlan) *sim.Outcome {
@@ -182,6 +186,13 @@ func execEnum(t *testing.T, p *GPlan) *sim.Outcome {
 	rob := w.runs[last]
 	n, m := rob.agentReqs, rob.caCalls
 	o.Logf("reference: result=%s agent_requests=%d signer_calls=%d kinds=%v", errKind(rob.result), n, m, rob.reqKinds)
+	// The execution without any injected fault may already end in an error of its own kind (an RA that does not wait
+	// for a slow CA, an unconfigured algorithm): with a fault injected that outcome stays possible.
+	enumRefKind = ""
+	if rob.result != nil {
+		enumRefKind = errKind(rob.result)
+	}
+	defer func() { enumRefKind = "" }()
 	var places []Placement
 	for i := 0; i < n; i++ {
 		for _, f := range enumAgentFaults {
